@@ -309,6 +309,50 @@ def check_reject(case, ctx):
     raise Violation("invalid arguments (%s) were accepted and returned %r" % (kind, result))
 
 
+# ---------------------------------------------------------------- large grids
+@st.composite
+def large_cases(draw):
+    return dict(region=draw(gen.regions(max_exp=4)), shape=[draw(st.sampled_from([1, 2, 257, 1000, 3001])), draw(st.sampled_from([1, 3, 640, 2000, 4097]))],
+                pixel=draw(st.booleans()), meshgrid=draw(st.booleans()), by=draw(st.sampled_from(["shape", "spacing"])))
+
+
+def check_large(case, ctx):
+    """thousands of nodes per direction: still exactly the nodes of the exact model (first, last, evenly spaced, count)"""
+    w, e, s, n = case["region"]
+    size_n, size_e = case["shape"]
+    if case["meshgrid"] and size_n * size_e > 4_000_000:
+        size_n = min(size_n, 1000)
+    if case["by"] == "shape":
+        kw = dict(shape=(size_n, size_e))
+    else:
+        # the spacing that divides the region into the wanted number of intervals (round-off is absorbed by adjust="spacing")
+        kw = dict(spacing=((n - s) / max(size_n - 1, 1), (e - w) / max(size_e - 1, 1)))
+        size_n, size_e = max(size_n, 2), max(size_e, 2)
+        if case["pixel"]:
+            size_n, size_e = size_n - 1, size_e - 1
+    east, north = vd.grid_coordinates((w, e, s, n), pixel_register=case["pixel"], meshgrid=case["meshgrid"], **kw)
+    if case["meshgrid"]:
+        ctx.check(east.shape == (size_n, size_e) and north.shape == (size_n, size_e), "meshgrid shape %s, expected %s", east.shape, (size_n, size_e))
+        ctx.check(np.all(east == east[0:1, :]) and np.all(north == north[:, 0:1]), "rows of easting / columns of northing differ")
+        east, north = east[0, :], north[:, 0]
+    ctx.check(east.shape == (size_e,) and north.shape == (size_n,), "axis lengths (%d, %d), expected (%d, %d)", north.size, east.size, size_n, size_e)
+    for name, vals, lo, hi, size in (("easting", east, w, e, size_e), ("northing", north, s, n, size_n)):
+        nodes = size + 1 if case["pixel"] else size
+        if case["by"] == "shape" and case["pixel"]:
+            nodes = size + 1
+        step = (hi - lo) / (nodes - 1) if nodes > 1 else 0.0
+        exp = lo + step * np.arange(nodes)
+        if case["pixel"]:
+            exp = exp[:-1] + step / 2
+        tol = 8 * EPS * max(abs(lo), abs(hi), 1e-300)
+        if vals.shape != exp.shape or not np.all(np.abs(vals - exp) <= tol):
+            k = int(np.argmax(np.abs(vals - exp))) if vals.shape == exp.shape else -1
+            raise Violation("%s axis of a %d x %d grid (%s, pixel=%r): %d nodes, node %d is %r, the evenly spaced model gives %r" % (
+                name, size_n, size_e, case["by"], case["pixel"], vals.size, k, float(vals[k]) if k >= 0 else None, float(exp[k]) if k >= 0 else None))
+    ctx.label(case["by"], "pixel" if case["pixel"] else "gridline", "meshgrid" if case["meshgrid"] else "axes")
+    ctx.nt(size_n * size_e > 1000)
+
+
 SUBCHECKS = [
     Sub("line_lattice", check_line, enumerate=lattice, shards_quick=8,
         doc="exhaustive rational lattice of (start, extent, spacing) x adjust x registration for line_coordinates"),
@@ -320,4 +364,6 @@ SUBCHECKS = [
         doc="profile_coordinates evenly spaced on the segment, distances from the first point"),
     Sub("rejects", check_reject, strategy=reject_cases(), quick=200, thorough=600, shards_thorough=2,
         doc="both/neither of shape and spacing, invalid adjust, bad extra_coords/spacing/size are rejected"),
+    Sub("large", check_large, strategy=large_cases(), quick=10, thorough=60, heavy=True,
+        doc="grids with thousands of nodes per direction (shape or dividing spacing, both registrations, meshgrid on/off) against the evenly spaced model"),
 ]
